@@ -378,6 +378,61 @@ func guarded(name string, f func()) {
 	f()
 }
 
+// ConvVia converts the raw source values in through the conversion for (s, d), with a source buffer
+// that came about in an unusual way (all through the public API):
+//
+//	route 1: allocated, then filled only through two Slice windows of it (never through itself);
+//	route 2: taken from a pool that had already recycled it, then filled through windows;
+//	route 3: first the destination of another conversion (from element type int16 or float64), then
+//	         overwritten through a window.
+//
+// The destination is a fresh buffer pre-filled with garbage; the raw results go to out.
+func ConvVia(s, d, route int, in, out []uint64) {
+	n := len(in)
+	a := signal.Allocator{Channels: 1, Length: n, Capacity: n}
+	var src Buf
+	switch route {
+	case 2:
+		pool := NewPool(s, a)
+		b := pool.Get()
+		for i := 0; i < n; i++ {
+			b.SetSample(i, Garbage(s))
+		}
+		pool.Put(b)
+		src = pool.Get()
+	case 3:
+		p := Int16
+		if Types[s].Kind != Float {
+			p = Float64
+		}
+		prod := Alloc(p, a)
+		for i := 0; i < n; i++ {
+			prod.SetSample(i, Tok(p, 0))
+		}
+		src = Alloc(s, a)
+		guarded(ConvName(p, s), func() { Conv(prod, src) })
+	default:
+		src = Alloc(s, a)
+	}
+	w1, w2 := src.Slice(0, n/2), src.Slice(n/2, n)
+	sk := Types[s].Kind
+	for i, r := range in {
+		if i < n/2 {
+			w1.SetSample(i, Val{sk, r})
+		} else {
+			w2.SetSample(i-n/2, Val{sk, r})
+		}
+	}
+	dst := Alloc(d, a)
+	for i := 0; i < n; i++ {
+		dst.SetSample(i, Garbage(d))
+	}
+	guarded(ConvName(s, d), func() { Conv(src, dst) })
+	for i := range in {
+		out[i] = dst.Sample(i).B
+	}
+}
+
 // ConvBlock returns a function that converts up to n raw sample values (Val.B of the
 // source kind) through the real conversion function for (s, d), via real one-channel
 // buffers, and stores the raw results (Val.B of the destination kind) in out.
@@ -659,7 +714,25 @@ func namedFloat[N constraints.Float](name string) {
 	toNamedFloat[N](n)
 }
 
+// Named types whose names end in digits that are not their width (fixed-point and format names do).
+type (
+	Q15      int16
+	PCM24    int32
+	Level8   uint16
+	Code32   uint64
+	Stereo16 float32
+	Sample2  float64
+	X64      int8
+)
+
 func regLocalTypes(ws int) {
+	regType[Q15]("Q15", Signed, 16, true)
+	regType[PCM24]("PCM24", Signed, 32, true)
+	regType[Level8]("Level8", Unsigned, 16, true)
+	regType[Code32]("Code32", Unsigned, 64, true)
+	regType[Stereo16]("Stereo16", Float, 32, true)
+	regType[Sample2]("Sample2", Float, 64, true)
+	regType[X64]("X64", Signed, 8, true)
 	func() { type Sample int8; regType[Sample]("Sample(int8)", Signed, 8, true) }()
 	func() { type Sample int16; regType[Sample]("Sample(int16)", Signed, 16, true) }()
 	func() { type Sample int32; regType[Sample]("Sample(int32)", Signed, 32, true) }()
